@@ -6,3 +6,9 @@ open PedVerif.Checker
 #print axioms wrap_ne_escape
 #print axioms cfg_catchesAll
 #print axioms cfg_strGuard
+open PedVerif.Call
+#print axioms wrapper_adds_nothing
+#print axioms wrapper_escapes_bodyMentionsStaticmethod
+#print axioms WrapperAddsNothing_full_is_false
+#print axioms checkArguments_some_tc
+#print axioms cfg_fallback
